@@ -50,6 +50,11 @@ def cases(tier, seed):
         for est in EST:
             for w in (False, True):
                 yield dict(kind="score", ds=ds, est=est, w=w)
+        # 2-D gridded input whose arrays do not share one memory layout (C-ordered coordinates, Fortran-ordered data, transposed
+        # weights): the row selection must follow the logical (C) order of every array. Added after seed C12-2.
+        for est in EST:
+            for cv in ("kfold3", "blockkfold"):
+                yield dict(kind="cvs", ds=ds, est=est, w=True, cv=cv, scoring=0, mode="serial", shape="2dmix")
     for est in EST:
         for cv in ("kfold3", "blockkfold", "shuffle"):
             for sc in (None, "neg_mean_squared_error"):
@@ -62,6 +67,8 @@ def cases(tier, seed):
                     for vec in (False, True):
                         for w in (False, True):
                             yield dict(kind="tts", ds=ds, mode=mode, seed=sd, test_size=ts, vec=vec, w=w)
+                            if sd == 0 and w:
+                                yield dict(kind="tts", ds=ds, mode=mode, seed=sd, test_size=ts, vec=vec, w=w, shape="2dmix")
     for perm in itertools.permutations([1e-4, 1e-1, 1e2]):
         for mind in ("default", "two"):
             for cv in ("default", "kfold2", "blockkfold"):
@@ -247,6 +254,15 @@ def run(case, rec):
         wts = None
         if case["w"]:
             wts = (w[0], w[1]) if vec else w[0]
+        vcoords, vdata, vwts = (e, n), data, wts
+        if case.get("shape") == "2dmix":
+            shp = (2, e.size // 2)
+            C_ = lambda a: a.reshape(shp)
+            F_ = lambda a: np.asfortranarray(a.reshape(shp))
+            T_ = lambda a: np.ascontiguousarray(a.reshape(shp).T).T
+            vcoords = (C_(e), C_(n))
+            vdata = tuple(F_(x) for x in data) if vec else F_(data)
+            vwts = None if wts is None else (tuple(T_(x) for x in wts) if vec else T_(wts))
         if kind == "score":
             est = make_est(key)
             est.fit((e, n), data, wts)
@@ -286,7 +302,7 @@ def run(case, rec):
         if mode == "serial":
             est = make_est(key)
             before = (repr(est.get_params()), _fitted_attrs(est))
-            got = call(rec, vd.cross_val_score, est, (e, n), data, weights=wts, cv=make_cv(cvkey), scoring=make_scoring(si))
+            got = call(rec, vd.cross_val_score, est, vcoords, vdata, weights=vwts, cv=make_cv(cvkey), scoring=make_scoring(si))
             if raised(got):
                 return rec.check(False, "cross_val_score raised %r" % (got,))
             rec.check(isinstance(got, np.ndarray), "serial cross_val_score must return an array")
@@ -349,6 +365,13 @@ def run(case, rec):
         wts = None
         if case["w"]:
             wts = (ids + 0.5, ids * 2.0 + 0.25) if case["vec"] else ids + 0.5
+        if case.get("shape") == "2dmix":
+            shp = (2, npts // 2)
+            coords = tuple(a.reshape(shp) for a in coords)
+            F_ = lambda a: np.asfortranarray(a.reshape(shp))
+            T_ = lambda a: np.ascontiguousarray(a.reshape(shp).T).T
+            data = tuple(F_(a) for a in data) if case["vec"] else F_(data)
+            wts = None if wts is None else (tuple(T_(a) for a in wts) if case["vec"] else T_(wts))
         kw = dict(test_size=case["test_size"], random_state=case["seed"])
         if case["mode"] == "spacing":
             kw["spacing"] = 1.0
